@@ -99,6 +99,22 @@ Theorem T11c_encoded_read_all : forall compress decompress lay es fuel,
 Proof. exact encoded_read_all. Qed.
 Print Assumptions T11c_encoded_read_all.
 
+(* one file, one content: two legal layouts - any versions, cuts, restart sets, sharing,
+   separators, compressors - of two entry lists that encode to the same bytes encode the
+   same entries.  Reading is therefore a function of the file alone, not of how it was laid out. *)
+Theorem T11c_file_determines_entries : forall compress compress' decompress lay lay' es es' f,
+  layout_ok compress lay es = true -> layout_ok compress' lay' es' = true ->
+  decompress_inverts compress decompress lay es -> decompress_inverts compress' decompress lay' es' ->
+  encode_table compress lay es = Some f -> encode_table compress' lay' es' = Some f -> es = es'.
+Proof.
+  intros compress compress' decompress lay lay' es es' f Hl Hl' Hd Hd' E E'.
+  set (fuel := S (Nat.max (length es) (length es'))).
+  destruct (T11c_encoded_read_all compress decompress lay es fuel Hl Hd ltac:(unfold fuel; lia)) as (f1 & E1 & R1).
+  destruct (T11c_encoded_read_all compress' decompress lay' es' fuel Hl' Hd' ltac:(unfold fuel; lia)) as (f2 & E2 & R2).
+  rewrite E in E1. rewrite E' in E2. inversion E1. inversion E2. subst f1 f2. congruence.
+Qed.
+Print Assumptions T11c_file_determines_entries.
+
 Theorem T11c_encoded_table_check : forall compress decompress lay es verify,
   layout_ok compress lay es = true -> decompress_inverts compress decompress lay es -> es <> [] ->
   exists f r ib iridx,
